@@ -704,6 +704,13 @@ class Engine(Interp):
         if target[0] == 'opqit' and len(target) == 5 and not byref and tr == 'core::iter::traits::collect::IntoIterator' \
                 and nm == 'into_iter':
             return [('ret', st, recv)]
+        if tr == ITER_TRAIT and nm == 'map' and not byref and len(args) == 2 and args[1][0] == 'closure' \
+                and target[0] in ('opq', 'unk'):
+            # `source.map(<closure of the crate>)` on an iterator of user data: the lazy adaptor of core (as for
+            # `copied()` / `cloned()`, a provided method of Iterator is taken to be the provided one)
+            m = self.models.get(ITER_TRAIT + '::map')
+            if m is not None:
+                return m(self, st, fid, t, args, dest_ty)
         path = None
         if target[0] == 'adt':
             path = target[1]
